@@ -1398,15 +1398,14 @@ def r2(ctx):
                     # (same block installs a Packets list built from exactly these acks)
                     blk, _ = _block_of(st.node)
                     moved = False
-                    for s2 in (blk or []):
-                        for ins in stores(s2, into_defs=False):
-                            if ins.kind == "setitem" and is_const_sub(ins.target, "Packets") and isinstance(ins.value, ast.Name):
-                                for a_ in stores(ast.Module(body=list(blk), type_ignores=[]), into_defs=False):
-                                    v_ = a_.value
-                                    if a_.path == ins.value.id and a_.kind == "assign" and \
-                                            isinstance(v_, (ast.ListComp, ast.GeneratorExp)) and len(v_.generators) == 1 \
-                                            and ap(v_.generators[0].iter) == f"{msg}.acks":
-                                        moved = True
+                    installed = {ins.value.id for ins in stores(fi.node, into_defs=False)
+                                 if ins.kind == "setitem" and is_const_sub(ins.target, "Packets") and isinstance(ins.value, ast.Name)}
+                    for a_ in stores(ast.Module(body=list(blk or []), type_ignores=[]), into_defs=False):
+                        v_ = a_.value
+                        if a_.path in installed and a_.kind == "assign" and \
+                                isinstance(v_, (ast.ListComp, ast.GeneratorExp)) and len(v_.generators) == 1 \
+                                and ap(v_.generators[0].iter) == f"{msg}.acks":
+                            moved = True
                     ctx.ob("C05.R2", f"{fi.qual}: appended acks are cleared only after being moved into the PacketAck body",
                            moved, ctx.w(fi, st.node), f"`{norm(st.node)}` throws the (translated) appended acks away: they never "
                            f"reach the endpoint they are meant for")
